@@ -38,7 +38,10 @@ TRead ==
                              /\ s' = SReadOkRun(v, s, Ev.ret.pat, Ev.ret.off, Ev.ret.n, Ev.ret.count)
          [] k = "lie" -> /\ Ev.ret.n >= 1 /\ Ev.ret.n <= Ev.buflen /\ s.bufKnown
                          /\ s' = SReadLie(v, s, Ev.ret.n)
-         [] k = "int" -> s' = SReadInterrupted(v, s)
+         [] k = "int" -> s' = SReadInterrupted(v, s)              \* (any number of them in a row: stuttering)
+         [] k = "int_okp_run" -> /\ Ev.ret.n >= 1 /\ Ev.ret.n <= Ev.buflen /\ Ev.ret.count >= 1 /\ v.ckLen = 1
+                                 \* count x (Interrupted; n bytes): the interruptions change nothing
+                                 /\ s' = SReadOkRun(v, s, Ev.ret.pat, Ev.ret.off, Ev.ret.n, Ev.ret.count)
          [] k = "err" -> s' = SReadErr(v, s, Ev.ret.err)
          [] k = "eof" -> s' = SReadEof(v, s)
          [] k = "mis" -> /\ Ev.ret.n > Ev.buflen
